@@ -5,3 +5,7 @@ pub proof fn lemma_flat_step<T: Ser>(s: Seq<T>, i: int) requires 0 <= i < s.len(
 { assert(s.take(i + 1).drop_last() =~= s.take(i)); }
 /// first occurrences, in order (what deduplicated_view() yields); only its length and elements are used here
 pub uninterp spec fn dedup_seq<T>(s: Seq<T>) -> Seq<T>;
+impl vstd::std_specs::convert::FromSpecImpl<BigNum> for u64 {
+    open spec fn obeys_from_spec() -> bool { true }
+    open spec fn from_spec(v: BigNum) -> u64 { v.0 }
+}
